@@ -322,6 +322,7 @@ class Sim:
         """run start() until it ends or `horizon` virtual seconds passed; returns how it ended"""
         async def main():
             t = self.loop.create_task(self.esme.start(), name='start')
+            self.start_task = t
             if stop_first:
                 # stop() requested before start() took its first step
                 self.ev('stop-called', self.esme.session_state.name)
